@@ -246,15 +246,18 @@ def ruleBeforeYesterday(ts: datetime, _: RegexMatch) -> Time:
     return Time(year=dm.year, month=dm.month, day=dm.day)
 
 
-@rule(r"(das )?ende (des|dieses) monats?|(the )?(EOM|end of (the )?month)")
+@rule(
+    r"(das )?(EOM|monats ?ende|ende (des |dieses )?monats?)|"
+    r"(the )?(EOM|end of (the |this )?month)"
+)
 def ruleEOM(ts: datetime, _: RegexMatch) -> Time:
     dm = ts + relativedelta(day=1, months=1, days=-1)
     return Time(year=dm.year, month=dm.month, day=dm.day)
 
 
 @rule(
-    r"(das )?(EOY|jahr(es)? ?ende|ende (des )?jahr(es)?)|"
-    r"(the )?(EOY|end of (the )?year)"
+    r"(das )?(EOY|jahr(es)? ?ende|ende (des |dieses )?jahr(es)?)|"
+    r"(the )?(EOY|end of (the |this )?year)"
 )
 def ruleEOY(ts: datetime, _: RegexMatch) -> Time:
     dm = ts + relativedelta(day=1, month=1, years=1, days=-1)
